@@ -333,7 +333,7 @@ func statRes(c *hlib.Ctx, kind string, r *region, res callRes) {
 			c.Stat(kind+".tjunction-or-colinear", 1)
 		}
 	} else if kind != "mono" {
-		c.Stat(kind+".gocert."+goCert(r, res.tris, false, -1), 1)
+		c.Stat(kind+".gocert."+goCert(r, res.tris, true, -1), 1)
 	}
 }
 
@@ -467,8 +467,21 @@ func runMesh(c *hlib.Ctx, n int) {
 		m := r.mesh()
 		res := call2d(r, func() [][3]model2d.Coord { return model2d.TriangulateMesh(m) })
 		statRes(c, "mesh", r, res)
-		c.Emit("c14 mesh "+r.header()+" "+opTris(res, true), implSummary(r, res))
+		emitMesh(c, "mesh", r, res)
 	}
+}
+
+// emitMesh labels a case whose ONLY defect is zero-area triangles (everything else of the
+// certificate holds) with its own site, so that the known finding about exactly colinear boundary
+// vertices does not mask any other disagreement.  The label is advisory; the verdict is the driver's.
+func emitMesh(c *hlib.Ctx, kind string, r *region, res callRes) {
+	op := "c14 " + kind + " " + r.header() + " " + opTris(res, true)
+	if res.fail == "" && goCert(r, res.tris, true, -1) == "degenerate" && goCertW(r, res.tris, false, -1, true) == "ok" {
+		c.Stat(kind+".zero-area-only", 1)
+		c.EmitSite(op, implSummary(r, res), "corr:c14 "+kind+"/zero-area-triangle-on-colinear-boundary")
+		return
+	}
+	c.Emit(op, implSummary(r, res))
 }
 
 // distinctX: the sweep requires pairwise distinct x (TriangulateMesh rotates to get that);
@@ -535,7 +548,7 @@ func runSingle(c *hlib.Ctx, n int) {
 		segs := r.segs()
 		res := call2d(r, func() [][3]model2d.Coord { return model2d.VerifTriangulateSingleMesh(segs) })
 		statRes(c, "single", r, res)
-		c.Emit("c14 single "+r.header()+" "+opTris(res, true), implSummary(r, res))
+		emitMesh(c, "single", r, res)
 	}
 }
 
